@@ -220,6 +220,67 @@ def directed(sh, backend, name, src, topname, mech_fn, ncyc=12):
     G.unload(mod)
 
 
+def gen_param_hierarchy(rng):
+  """source of a two-level hierarchy of ONE parameterised leaf class whose every construct parameter changes its behaviour;
+  the instances use varied call shapes (defaults left out, positional / keyword overrides) and values taken from the pool of
+  default values, so that a module name / module cache that mis-reports a parameter makes two different instances share one module"""
+  nd = rng.randrange(2, 5)
+  defaults = rng.sample(range(0, 8), nd)
+  pnames = ["pa", "pb", "pc", "pd"][:nd]
+  w = rng.choice([4, 8, 16])
+  L = ["from pymtl3 import *", "class PLeaf(Component):",
+       "  def construct(s, T, " + ", ".join(f"{n}={d}" for n, d in zip(pnames, defaults)) + "):",
+       "    s.i = InPort(T); s.o = OutPort(T)"]
+  terms = []
+  for k, n in enumerate(pnames):
+    L.append(f"    K{k} = int({n}) & 7")
+  L += ["    @update", "    def up():"]
+  expr = "s.i"
+  for k in range(nd):
+    expr = f"(({expr} + K{k}) ^ {k + 1})" if k % 2 == 0 else f"(({expr} ^ K{k}) + {k + 1})"
+  L.append(f"      s.o @= {expr}")
+  pool = sorted(set(defaults) | {0, 1, rng.randrange(8)})
+  ninst = rng.randrange(2, 7)
+  calls = []
+  for _ in range(ninst):
+    npos = rng.randrange(0, nd + 1)
+    args = [str(rng.choice(pool)) for _ in range(npos)]
+    for n in pnames[npos:]:
+      if rng.random() < 0.4:
+        args.append(f"{n}={rng.choice(pool)}")
+    if rng.random() < 0.3: rng.shuffle(args[npos:]) if False else None
+    calls.append("PLeaf(T" + "".join(", " + a for a in args) + ")")
+  L += ["class PMid(Component):", "  def construct(s, T, sel):", "    s.i = InPort(T)"]
+  half = max(1, ninst // 2)
+  L += [f"    s.o = [OutPort(T) for _ in range({ninst})]", "    if sel == 0:"]
+  L.append("      s.l = [" + ", ".join(calls[:half]) + "]")
+  L.append("    else:")
+  L.append("      s.l = [" + ", ".join(calls[half:] or calls[:1]) + "]")
+  L += ["    for k in range(len(s.l)):", "      s.l[k].i //= s.i", "      s.o[k] //= s.l[k].o",
+        "    for k in range(len(s.l), len(s.o)):", "      s.o[k] //= 0"]
+  L += ["class PTop(Component):", "  def construct(s):", f"    T = mk_bits({w})", "    s.i = InPort(T)",
+        f"    s.o = [OutPort(T) for _ in range({2 * ninst})]", "    s.m0 = PMid(T, 0); s.m1 = PMid(T, 1)",
+        "    s.m0.i //= s.i; s.m1.i //= s.i",
+        f"    for k in range({ninst}):", "      s.o[k] //= s.m0.o[k]", f"      s.o[{ninst} + k] //= s.m1.o[k]"]
+  return "\n".join(L) + "\n"
+
+
+def param_stream(sh, backend, n, mech_fn, tag="param"):
+  for case in range(n):
+    rng = sh.rng(tag, case)
+    src = gen_param_hierarchy(rng)
+    mod = G.load_source(src, "par")
+    try:
+      top = mod.PTop(); top.elaborate()
+      r = judge_text(sh, backend, top, tag, src, (tag, case), mech_fn, ncyc=8, rng=rng, count_key="param_designs_cosimulated")
+      if case < 1 and sh.idx == 0:
+        sh.sample({"param_hierarchy_source": src[:1200]})
+    except Exception as e:
+      sh.inconclusive("param-stream-harness:" + type(e).__name__)
+    finally:
+      G.unload(mod)
+
+
 def selfcheck(sh):
   n, bad = svselfcheck.run_lrm()
   sh.count("svsim_lrm_examples_ok", n - len(bad))
